@@ -63,6 +63,112 @@ pub mod std {
             }
         }
 
+        /// `std::thread::Builder` (name and stack size are honoured only for real threads)
+        #[derive(Debug, Default)]
+        pub struct Builder {
+            name: Option<String>,
+            stack_size: Option<usize>,
+        }
+
+        impl Builder {
+            pub fn new() -> Builder {
+                Builder::default()
+            }
+            pub fn name(mut self, name: String) -> Builder {
+                self.name = Some(name);
+                self
+            }
+            pub fn stack_size(mut self, size: usize) -> Builder {
+                self.stack_size = Some(size);
+                self
+            }
+            pub fn spawn<F, T>(self, f: F) -> ::std::io::Result<JoinHandle<T>>
+            where
+                F: FnOnce() -> T + Send + 'static,
+                T: Send + 'static,
+            {
+                match current() {
+                    Some((sh, me)) => Ok(JoinHandle::Sim(sim_spawn(&sh, me, f))),
+                    None => {
+                        let mut b = ::std::thread::Builder::new();
+                        if let Some(n) = self.name {
+                            b = b.name(n);
+                        }
+                        if let Some(s) = self.stack_size {
+                            b = b.stack_size(s);
+                        }
+                        b.spawn(f).map(JoinHandle::Real)
+                    }
+                }
+            }
+        }
+
+        /// `std::thread::scope`: inside a simulation the scoped threads are simulated tasks.
+        pub struct Scope<'scope, 'env: 'scope> {
+            real: &'scope ::std::thread::Scope<'scope, 'env>,
+            sim: Option<(::std::sync::Arc<crate::Shared>, crate::TaskId)>,
+            spawned: ::std::sync::Mutex<Vec<crate::TaskId>>,
+        }
+
+        pub enum ScopedJoinHandle<'scope, T> {
+            Real(::std::thread::ScopedJoinHandle<'scope, T>),
+            Sim(SimJoin<T>),
+        }
+
+        impl<T> ScopedJoinHandle<'_, T> {
+            pub fn join(self) -> ::std::thread::Result<T> {
+                match self {
+                    ScopedJoinHandle::Real(h) => h.join(),
+                    ScopedJoinHandle::Sim(j) => sim_join(j),
+                }
+            }
+            pub fn is_finished(&self) -> bool {
+                match self {
+                    ScopedJoinHandle::Real(h) => h.is_finished(),
+                    ScopedJoinHandle::Sim(j) => j.is_finished(),
+                }
+            }
+        }
+
+        impl<'scope, 'env> Scope<'scope, 'env> {
+            pub fn spawn<F, T>(&'scope self, f: F) -> ScopedJoinHandle<'scope, T>
+            where
+                F: FnOnce() -> T + Send + 'scope,
+                T: Send + 'static,
+            {
+                match &self.sim {
+                    Some((sh, me)) => {
+                        let j = crate::sim_spawn_scoped(self.real, sh, *me, f);
+                        self.spawned.lock().unwrap().push(j.target);
+                        ScopedJoinHandle::Sim(j)
+                    }
+                    None => ScopedJoinHandle::Real(self.real.spawn(f)),
+                }
+            }
+        }
+
+        pub fn scope<'env, F, T>(f: F) -> T
+        where
+            F: for<'scope> FnOnce(&'scope Scope<'scope, 'env>) -> T,
+        {
+            ::std::thread::scope(|real| {
+                let sc = Scope { real, sim: current(), spawned: ::std::sync::Mutex::new(Vec::new()) };
+                // SAFETY of lifetimes: `sc` lives until the end of this closure, i.e. inside the
+                // real scope; the reference handed to `f` is shortened accordingly by transmute
+                // because a local cannot be borrowed for the whole of 'scope.
+                let sc_ref: &Scope<'_, 'env> = unsafe { ::std::mem::transmute(&sc) };
+                let r = f(sc_ref);
+                // implicit join of everything spawned in the scope, at simulation level
+                if let Some((sh, me)) = &sc.sim {
+                    let ids: Vec<crate::TaskId> = sc.spawned.lock().unwrap().clone();
+                    for t in ids {
+                        crate::sim_wait_finished(sh, *me, t);
+                    }
+                }
+                r
+            })
+        }
+
         pub fn sleep(d: ::std::time::Duration) {
             if crate::in_sim() {
                 crate::sleep_ns(d.as_nanos().min(u128::from(u64::MAX)) as u64);
@@ -80,8 +186,166 @@ pub mod std {
         }
     }
 
+    pub mod hint {
+        pub use ::std::hint::*;
+
+        pub fn spin_loop() {
+            if crate::in_sim() {
+                crate::yield_if_sim("spin-loop");
+            } else {
+                ::std::hint::spin_loop()
+            }
+        }
+    }
+
     pub mod sync {
         pub use ::std::sync::*;
+
+        pub use super::super::locks::{Condvar, Mutex, MutexGuard, RwLock, RwLockReadGuard, RwLockWriteGuard};
+
+        pub mod atomic {
+            pub use ::std::sync::atomic::{Ordering, compiler_fence};
+
+            pub fn fence(order: Ordering) {
+                crate::yield_if_sim("fence");
+                ::std::sync::atomic::fence(order)
+            }
+
+            macro_rules! shim_atomic_int {
+                ($name:ident, $t:ty) => {
+                    /// Atomic whose every operation is a yield point inside a simulation.
+                    #[derive(Debug, Default)]
+                    pub struct $name(::std::sync::atomic::$name);
+                    impl $name {
+                        pub const fn new(v: $t) -> Self {
+                            Self(::std::sync::atomic::$name::new(v))
+                        }
+                        pub fn load(&self, o: Ordering) -> $t {
+                            crate::yield_if_sim("atomic");
+                            self.0.load(o)
+                        }
+                        pub fn store(&self, v: $t, o: Ordering) {
+                            crate::yield_if_sim("atomic");
+                            self.0.store(v, o)
+                        }
+                        pub fn swap(&self, v: $t, o: Ordering) -> $t {
+                            crate::yield_if_sim("atomic");
+                            self.0.swap(v, o)
+                        }
+                        pub fn compare_exchange(&self, c: $t, n: $t, s: Ordering, f: Ordering) -> Result<$t, $t> {
+                            crate::yield_if_sim("atomic");
+                            self.0.compare_exchange(c, n, s, f)
+                        }
+                        pub fn compare_exchange_weak(&self, c: $t, n: $t, s: Ordering, f: Ordering) -> Result<$t, $t> {
+                            crate::yield_if_sim("atomic");
+                            self.0.compare_exchange(c, n, s, f)
+                        }
+                        pub fn fetch_add(&self, v: $t, o: Ordering) -> $t {
+                            crate::yield_if_sim("atomic");
+                            self.0.fetch_add(v, o)
+                        }
+                        pub fn fetch_sub(&self, v: $t, o: Ordering) -> $t {
+                            crate::yield_if_sim("atomic");
+                            self.0.fetch_sub(v, o)
+                        }
+                        pub fn fetch_and(&self, v: $t, o: Ordering) -> $t {
+                            crate::yield_if_sim("atomic");
+                            self.0.fetch_and(v, o)
+                        }
+                        pub fn fetch_or(&self, v: $t, o: Ordering) -> $t {
+                            crate::yield_if_sim("atomic");
+                            self.0.fetch_or(v, o)
+                        }
+                        pub fn fetch_xor(&self, v: $t, o: Ordering) -> $t {
+                            crate::yield_if_sim("atomic");
+                            self.0.fetch_xor(v, o)
+                        }
+                        pub fn fetch_max(&self, v: $t, o: Ordering) -> $t {
+                            crate::yield_if_sim("atomic");
+                            self.0.fetch_max(v, o)
+                        }
+                        pub fn fetch_min(&self, v: $t, o: Ordering) -> $t {
+                            crate::yield_if_sim("atomic");
+                            self.0.fetch_min(v, o)
+                        }
+                        pub fn fetch_update<F: FnMut($t) -> Option<$t>>(&self, s: Ordering, f: Ordering, g: F) -> Result<$t, $t> {
+                            crate::yield_if_sim("atomic");
+                            self.0.fetch_update(s, f, g)
+                        }
+                        pub fn into_inner(self) -> $t {
+                            self.0.into_inner()
+                        }
+                        pub fn get_mut(&mut self) -> &mut $t {
+                            self.0.get_mut()
+                        }
+                    }
+                    impl From<$t> for $name {
+                        fn from(v: $t) -> Self {
+                            Self::new(v)
+                        }
+                    }
+                };
+            }
+            shim_atomic_int!(AtomicUsize, usize);
+            shim_atomic_int!(AtomicIsize, isize);
+            shim_atomic_int!(AtomicU64, u64);
+            shim_atomic_int!(AtomicI64, i64);
+            shim_atomic_int!(AtomicU32, u32);
+            shim_atomic_int!(AtomicI32, i32);
+            shim_atomic_int!(AtomicU16, u16);
+            shim_atomic_int!(AtomicU8, u8);
+
+            #[derive(Debug, Default)]
+            pub struct AtomicBool(::std::sync::atomic::AtomicBool);
+            impl AtomicBool {
+                pub const fn new(v: bool) -> Self {
+                    Self(::std::sync::atomic::AtomicBool::new(v))
+                }
+                pub fn load(&self, o: Ordering) -> bool {
+                    crate::yield_if_sim("atomic");
+                    self.0.load(o)
+                }
+                pub fn store(&self, v: bool, o: Ordering) {
+                    crate::yield_if_sim("atomic");
+                    self.0.store(v, o)
+                }
+                pub fn swap(&self, v: bool, o: Ordering) -> bool {
+                    crate::yield_if_sim("atomic");
+                    self.0.swap(v, o)
+                }
+                pub fn compare_exchange(&self, c: bool, n: bool, s: Ordering, f: Ordering) -> Result<bool, bool> {
+                    crate::yield_if_sim("atomic");
+                    self.0.compare_exchange(c, n, s, f)
+                }
+                pub fn compare_exchange_weak(&self, c: bool, n: bool, s: Ordering, f: Ordering) -> Result<bool, bool> {
+                    crate::yield_if_sim("atomic");
+                    self.0.compare_exchange(c, n, s, f)
+                }
+                pub fn fetch_and(&self, v: bool, o: Ordering) -> bool {
+                    crate::yield_if_sim("atomic");
+                    self.0.fetch_and(v, o)
+                }
+                pub fn fetch_or(&self, v: bool, o: Ordering) -> bool {
+                    crate::yield_if_sim("atomic");
+                    self.0.fetch_or(v, o)
+                }
+                pub fn fetch_xor(&self, v: bool, o: Ordering) -> bool {
+                    crate::yield_if_sim("atomic");
+                    self.0.fetch_xor(v, o)
+                }
+                pub fn into_inner(self) -> bool {
+                    self.0.into_inner()
+                }
+                pub fn get_mut(&mut self) -> &mut bool {
+                    self.0.get_mut()
+                }
+            }
+            impl From<bool> for AtomicBool {
+                fn from(v: bool) -> Self {
+                    Self::new(v)
+                }
+            }
+        }
 
         pub mod mpsc {
             pub use super::super::super::chan::{
@@ -196,6 +460,295 @@ pub mod std {
 impl<T> SimJoin<T> {
     pub(crate) fn is_finished(&self) -> bool {
         self.slot.0.lock().map(|g| g.is_some()).unwrap_or(true)
+    }
+}
+
+// ===========================================================================
+// locks and condition variables
+// ===========================================================================
+pub mod locks {
+    use crate::{Shared, current, sim_cond_notify, sim_cond_wait, sim_lock, sim_unlock};
+    use ::std::ops::{Deref, DerefMut};
+    use ::std::sync::{Arc, LockResult, PoisonError, TryLockError, TryLockResult};
+    use ::std::time::Duration;
+
+    /// `std::sync::Mutex`; inside a simulation `lock` is a yield point and contention blocks
+    /// the task in the simulator (never in the OS), so the baton scheduler stays in control.
+    #[derive(Default)]
+    pub struct Mutex<T: ?Sized> {
+        inner: ::std::sync::Mutex<T>,
+    }
+
+    pub struct MutexGuard<'a, T: ?Sized + 'a> {
+        // Option so that Condvar::wait can take the real guard apart
+        real: Option<::std::sync::MutexGuard<'a, T>>,
+        sim: Option<(Arc<Shared>, usize)>,
+        owner: &'a Mutex<T>,
+    }
+
+    impl<T> Mutex<T> {
+        pub const fn new(t: T) -> Mutex<T> {
+            Mutex { inner: ::std::sync::Mutex::new(t) }
+        }
+        pub fn into_inner(self) -> LockResult<T> {
+            self.inner.into_inner()
+        }
+    }
+
+    impl<T: ?Sized> Mutex<T> {
+        fn addr(&self) -> usize {
+            self as *const Mutex<T> as *const u8 as usize
+        }
+        fn wrap<'a>(&'a self, r: LockResult<::std::sync::MutexGuard<'a, T>>, sim: Option<(Arc<Shared>, usize)>) -> LockResult<MutexGuard<'a, T>> {
+            match r {
+                Ok(g) => Ok(MutexGuard { real: Some(g), sim, owner: self }),
+                Err(p) => Err(PoisonError::new(MutexGuard { real: Some(p.into_inner()), sim, owner: self })),
+            }
+        }
+        pub fn lock(&self) -> LockResult<MutexGuard<'_, T>> {
+            match current() {
+                Some((sh, me)) => {
+                    let id = sim_lock(&sh, me, self.addr(), false, false).unwrap_or(None);
+                    // the simulated lock is ours, so the real one is free
+                    self.wrap(self.inner.lock(), id.map(|i| (sh, i)))
+                }
+                None => self.wrap(self.inner.lock(), None),
+            }
+        }
+        pub fn try_lock(&self) -> TryLockResult<MutexGuard<'_, T>> {
+            match current() {
+                Some((sh, me)) => match sim_lock(&sh, me, self.addr(), false, true) {
+                    Ok(id) => self.wrap(self.inner.lock(), id.map(|i| (sh, i))).map_err(TryLockError::Poisoned),
+                    Err(()) => Err(TryLockError::WouldBlock),
+                },
+                None => match self.inner.try_lock() {
+                    Ok(g) => Ok(MutexGuard { real: Some(g), sim: None, owner: self }),
+                    Err(TryLockError::WouldBlock) => Err(TryLockError::WouldBlock),
+                    Err(TryLockError::Poisoned(p)) => Err(TryLockError::Poisoned(PoisonError::new(MutexGuard { real: Some(p.into_inner()), sim: None, owner: self }))),
+                },
+            }
+        }
+        pub fn is_poisoned(&self) -> bool {
+            self.inner.is_poisoned()
+        }
+        pub fn clear_poison(&self) {
+            self.inner.clear_poison()
+        }
+        pub fn get_mut(&mut self) -> LockResult<&mut T> {
+            self.inner.get_mut()
+        }
+    }
+
+    impl<T> From<T> for Mutex<T> {
+        fn from(t: T) -> Self {
+            Mutex::new(t)
+        }
+    }
+
+    impl<T: ?Sized + ::std::fmt::Debug> ::std::fmt::Debug for Mutex<T> {
+        fn fmt(&self, f: &mut ::std::fmt::Formatter<'_>) -> ::std::fmt::Result {
+            f.write_str("Mutex { .. }")
+        }
+    }
+
+    impl<T: ?Sized> Deref for MutexGuard<'_, T> {
+        type Target = T;
+        fn deref(&self) -> &T {
+            self.real.as_ref().unwrap()
+        }
+    }
+    impl<T: ?Sized> DerefMut for MutexGuard<'_, T> {
+        fn deref_mut(&mut self) -> &mut T {
+            self.real.as_mut().unwrap()
+        }
+    }
+    impl<T: ?Sized> Drop for MutexGuard<'_, T> {
+        fn drop(&mut self) {
+            // real guard first (it is uncontended), then the simulated one
+            self.real = None;
+            if let Some((sh, id)) = self.sim.take() {
+                sim_unlock(&sh, id, false);
+            }
+        }
+    }
+    impl<T: ?Sized + ::std::fmt::Debug> ::std::fmt::Debug for MutexGuard<'_, T> {
+        fn fmt(&self, f: &mut ::std::fmt::Formatter<'_>) -> ::std::fmt::Result {
+            ::std::fmt::Debug::fmt(&**self, f)
+        }
+    }
+    impl<T: ?Sized + ::std::fmt::Display> ::std::fmt::Display for MutexGuard<'_, T> {
+        fn fmt(&self, f: &mut ::std::fmt::Formatter<'_>) -> ::std::fmt::Result {
+            ::std::fmt::Display::fmt(&**self, f)
+        }
+    }
+
+    /// `std::sync::RwLock`, same approach (no writer preference).
+    #[derive(Default)]
+    pub struct RwLock<T: ?Sized> {
+        inner: ::std::sync::RwLock<T>,
+    }
+    pub struct RwLockReadGuard<'a, T: ?Sized + 'a> {
+        real: Option<::std::sync::RwLockReadGuard<'a, T>>,
+        sim: Option<(Arc<Shared>, usize)>,
+    }
+    pub struct RwLockWriteGuard<'a, T: ?Sized + 'a> {
+        real: Option<::std::sync::RwLockWriteGuard<'a, T>>,
+        sim: Option<(Arc<Shared>, usize)>,
+    }
+    impl<T> RwLock<T> {
+        pub const fn new(t: T) -> RwLock<T> {
+            RwLock { inner: ::std::sync::RwLock::new(t) }
+        }
+        pub fn into_inner(self) -> LockResult<T> {
+            self.inner.into_inner()
+        }
+    }
+    impl<T: ?Sized> RwLock<T> {
+        fn addr(&self) -> usize {
+            self as *const RwLock<T> as *const u8 as usize
+        }
+        pub fn read(&self) -> LockResult<RwLockReadGuard<'_, T>> {
+            let sim = current().and_then(|(sh, me)| sim_lock(&sh, me, self.addr(), true, false).unwrap_or(None).map(|i| (sh, i)));
+            match self.inner.read() {
+                Ok(g) => Ok(RwLockReadGuard { real: Some(g), sim }),
+                Err(p) => Err(PoisonError::new(RwLockReadGuard { real: Some(p.into_inner()), sim })),
+            }
+        }
+        pub fn write(&self) -> LockResult<RwLockWriteGuard<'_, T>> {
+            let sim = current().and_then(|(sh, me)| sim_lock(&sh, me, self.addr(), false, false).unwrap_or(None).map(|i| (sh, i)));
+            match self.inner.write() {
+                Ok(g) => Ok(RwLockWriteGuard { real: Some(g), sim }),
+                Err(p) => Err(PoisonError::new(RwLockWriteGuard { real: Some(p.into_inner()), sim })),
+            }
+        }
+        pub fn is_poisoned(&self) -> bool {
+            self.inner.is_poisoned()
+        }
+        pub fn get_mut(&mut self) -> LockResult<&mut T> {
+            self.inner.get_mut()
+        }
+    }
+    impl<T: ?Sized + ::std::fmt::Debug> ::std::fmt::Debug for RwLock<T> {
+        fn fmt(&self, f: &mut ::std::fmt::Formatter<'_>) -> ::std::fmt::Result {
+            f.write_str("RwLock { .. }")
+        }
+    }
+    impl<T: ?Sized> Deref for RwLockReadGuard<'_, T> {
+        type Target = T;
+        fn deref(&self) -> &T {
+            self.real.as_ref().unwrap()
+        }
+    }
+    impl<T: ?Sized> Deref for RwLockWriteGuard<'_, T> {
+        type Target = T;
+        fn deref(&self) -> &T {
+            self.real.as_ref().unwrap()
+        }
+    }
+    impl<T: ?Sized> DerefMut for RwLockWriteGuard<'_, T> {
+        fn deref_mut(&mut self) -> &mut T {
+            self.real.as_mut().unwrap()
+        }
+    }
+    impl<T: ?Sized> Drop for RwLockReadGuard<'_, T> {
+        fn drop(&mut self) {
+            self.real = None;
+            if let Some((sh, id)) = self.sim.take() {
+                sim_unlock(&sh, id, true);
+            }
+        }
+    }
+    impl<T: ?Sized> Drop for RwLockWriteGuard<'_, T> {
+        fn drop(&mut self) {
+            self.real = None;
+            if let Some((sh, id)) = self.sim.take() {
+                sim_unlock(&sh, id, false);
+            }
+        }
+    }
+
+    /// `std::sync::Condvar`.
+    #[derive(Debug, Default)]
+    pub struct Condvar {
+        inner: ::std::sync::Condvar,
+        // gives the condvar an address of its own even though std's is zero-sized on some targets
+        _pad: u8,
+    }
+
+    pub struct WaitTimeoutResult(bool);
+    impl WaitTimeoutResult {
+        pub fn timed_out(&self) -> bool {
+            self.0
+        }
+    }
+
+    impl Condvar {
+        pub const fn new() -> Condvar {
+            Condvar { inner: ::std::sync::Condvar::new(), _pad: 0 }
+        }
+        fn addr(&self) -> usize {
+            self as *const Condvar as usize
+        }
+        fn sim_wait<'a, T>(&self, mut guard: MutexGuard<'a, T>, timeout: Option<Duration>) -> (MutexGuard<'a, T>, bool) {
+            let (sh, id) = guard.sim.clone().expect("dstsim: Condvar::wait with a guard taken outside the simulation");
+            let me = current().expect("dstsim: Condvar::wait outside the simulation").1;
+            let owner = guard.owner;
+            // give the real lock back while waiting, keep the simulated bookkeeping ourselves
+            guard.real = None;
+            guard.sim = None;
+            drop(guard);
+            let to = sim_cond_wait(&sh, me, self.addr(), id, timeout.map(|d| d.as_nanos().min(u128::from(u64::MAX)) as u64));
+            let real = owner.inner.lock().unwrap_or_else(|p| p.into_inner());
+            (MutexGuard { real: Some(real), sim: Some((sh, id)), owner }, to)
+        }
+        pub fn wait<'a, T>(&self, guard: MutexGuard<'a, T>) -> LockResult<MutexGuard<'a, T>> {
+            if guard.sim.is_some() {
+                return Ok(self.sim_wait(guard, None).0);
+            }
+            let mut guard = guard;
+            let owner = guard.owner;
+            let real = guard.real.take().unwrap();
+            drop(guard);
+            match self.inner.wait(real) {
+                Ok(g) => Ok(MutexGuard { real: Some(g), sim: None, owner }),
+                Err(p) => Err(PoisonError::new(MutexGuard { real: Some(p.into_inner()), sim: None, owner })),
+            }
+        }
+        pub fn wait_while<'a, T, F: FnMut(&mut T) -> bool>(&self, mut guard: MutexGuard<'a, T>, mut condition: F) -> LockResult<MutexGuard<'a, T>> {
+            while condition(&mut *guard) {
+                guard = self.wait(guard)?;
+            }
+            Ok(guard)
+        }
+        pub fn wait_timeout<'a, T>(&self, guard: MutexGuard<'a, T>, dur: Duration) -> LockResult<(MutexGuard<'a, T>, WaitTimeoutResult)> {
+            if guard.sim.is_some() {
+                let (g, to) = self.sim_wait(guard, Some(dur));
+                return Ok((g, WaitTimeoutResult(to)));
+            }
+            let mut guard = guard;
+            let owner = guard.owner;
+            let real = guard.real.take().unwrap();
+            drop(guard);
+            match self.inner.wait_timeout(real, dur) {
+                Ok((g, r)) => Ok((MutexGuard { real: Some(g), sim: None, owner }, WaitTimeoutResult(r.timed_out()))),
+                Err(p) => {
+                    let (g, r) = p.into_inner();
+                    Err(PoisonError::new((MutexGuard { real: Some(g), sim: None, owner }, WaitTimeoutResult(r.timed_out()))))
+                }
+            }
+        }
+        pub fn notify_one(&self) {
+            match current() {
+                Some((sh, me)) => sim_cond_notify(&sh, me, self.addr(), false),
+                None => self.inner.notify_one(),
+            }
+        }
+        pub fn notify_all(&self) {
+            match current() {
+                Some((sh, me)) => sim_cond_notify(&sh, me, self.addr(), true),
+                None => self.inner.notify_all(),
+            }
+        }
     }
 }
 
@@ -382,6 +935,33 @@ pub mod chan {
             match self {
                 Receiver::Real(_) => None,
                 Receiver::Sim(r) => Some(r.0.id),
+            }
+        }
+        /// Under simulation: polls, sleeping on the simulated clock in between, until a
+        /// message arrives, the channel disconnects or `timeout` of simulated time has passed.
+        pub fn recv_timeout(&self, timeout: ::std::time::Duration) -> Result<T, ::std::sync::mpsc::RecvTimeoutError> {
+            use ::std::sync::mpsc::RecvTimeoutError;
+            match self {
+                Receiver::Real(r) => r.recv_timeout(timeout),
+                Receiver::Sim(r) => {
+                    let total = timeout.as_nanos().min(u128::from(u64::MAX)) as u64;
+                    let slice = (total / 8).max(1);
+                    let mut waited = 0u64;
+                    loop {
+                        match r.recv_inner(false) {
+                            Ok(v) => return Ok(v),
+                            Err(TryRecvError::Disconnected) => return Err(RecvTimeoutError::Disconnected),
+                            Err(TryRecvError::Empty) => {}
+                        }
+                        if waited >= total {
+                            return Err(RecvTimeoutError::Timeout);
+                        }
+                        if let Some((sh, me)) = current() {
+                            crate::sim_sleep_until(&sh, me, slice);
+                        }
+                        waited = waited.saturating_add(slice);
+                    }
+                }
             }
         }
         pub fn iter(&self) -> Iter<'_, T> {
